@@ -75,29 +75,45 @@ def check(ctx):
         ctx.check((b, a) in inverse or decodes, "R45.1", (LEX, "quote", c), f"replace({a!r}, {b!r})", f"unquote() never turns {b!r} back into {a!r}: a value containing {a!r} (and the other quote character) reaches the command altered",
                   desc=f"replace({a!r},{b!r}) inverted")
 
-    # ---- R45.2
-    trig = None
-    for n in walk_in_order(q):
-        if isinstance(n, ast.GeneratorExp) and isinstance(n.elt, ast.Compare) and isinstance(n.elt.ops[0], ast.NotIn):
-            it = n.generators[0].iter
-            trig = _str_const(it)
-    ctx.require(trig is not None, "quote: trigger-character test `all(char not in val for char in <literal>)` not found")
+    # ---- R45.2 / R45.3: quote() and unquote() are pure string functions: interpret their AST (pyint, `re` trusted)
+    import re as _re
+
+    from ..pyint import Interp
+    from ..pyint import Raised
+
+    def run(fname, arg):
+        it = Interp(m, trusted_modules={"re": _re})
+        try:
+            return it.call(LEX, fname, arg)
+        except Raised as r:
+            return f"<raises {r.name}>"
+
+    # the lexer's character classes (literals or module-level string constants)
+    def str_arg(call):
+        a0 = call.args[0] if call.args else None
+        v = _str_const(a0)
+        if v is None and isinstance(a0, ast.Name) and mod.assigns(a0.id):
+            v = _str_const(mod.assigns(a0.id)[-1])
+        return v
+
     words = [c for v in mod.assigns("expr") for c in ast.walk(v) if isinstance(c, ast.Call) and last_attr(c.func) == "Word"]
     notin = [c for v in mod.assigns("expr") for c in ast.walk(v) if isinstance(c, ast.Call) and last_attr(c.func) == "CharsNotIn"]
     ctx.require(len(words) == 1 and len(notin) == 1, "lexer expr: Word(...) / CharsNotIn(...) alternatives not found")
-    ws = _str_const(words[0].args[0])
-    excl = _str_const(notin[0].args[0])
+    ws, excl = str_arg(words[0]), str_arg(notin[0])
     ctx.require(ws is not None and excl is not None, "lexer expr: non-literal character classes")
     where = (LEX, "<module>", mod.assigns("expr")[-1])
     ctx.check(set(excl) == set(ws) | {'"', "'"}, "R45.2", where, f"CharsNotIn({excl!r}) vs Word({ws!r}) + quotes", "bare words and separators/quotes do not partition the characters: some character is in no token class or in two",
               desc="lexer classes partition")
-    ctx.check(set(trig) == set(excl), "R45.2", (LEX, "quote", q), f"quote trigger {trig!r} vs lexer separators {excl!r}", "quote() leaves a string bare although the lexer would split or re-interpret it (or vice versa)",
+    # which characters make quote() add quotes?  (semantic: interpret quote on 'a<c>b' for every candidate character)
+    candidates = [chr(i) for i in range(0, 128)] + ["\u00a0", "\u2003", "\u00e9", "\u4e2d"]
+    trig = {c for c in candidates if run("quote", f"a{c}b") != f"a{c}b"}
+    ctx.cells += len(candidates)
+    ctx.check(trig == set(excl), "R45.2", (LEX, "quote", q), f"characters that make quote() add quotes == lexer separators {sorted(excl)!r}",
+              f"quote() leaves a string bare although the lexer would split or re-interpret it (or quotes needlessly): differing characters {sorted(trig ^ set(excl))!r}",
               desc="quote trigger == lexer separators")
-    first = [s for s in q.body if isinstance(s, ast.If)]
-    ctx.check(bool(first) and norm(first[0].test).startswith("val and all("), "R45.2", (LEX, "quote", q), "empty string is quoted", "the empty string must be quoted (a bare empty token does not exist)", desc="empty value is quoted")
+    ctx.check(run("quote", "") not in ("", None), "R45.2", (LEX, "quote", q), "empty string is quoted", "the empty string must be quoted (a bare empty token does not exist, the argument would vanish)", desc="empty value is quoted")
 
     # ---- R45.3
-    rxs = [c for v in mod.assigns("PartialQuotedString") for c in ast.walk(v)]
     pats = rx.find_call_patterns(mod.assigns("PartialQuotedString")[-1], funcs=("compile",)) if mod.assigns("PartialQuotedString") else []
     ctx.require(len(pats) == 1, "PartialQuotedString is no longer pyparsing.Regex(re.compile(<literal>, flags))")
     _, pat, flags = pats[0]
@@ -106,17 +122,30 @@ def check(ctx):
         only_ref, only_code = rx.compare(rx.nfa_of(ref), lang, exclude=frozenset())
         ctx.check(only_ref is None, "R45.3", (LEX, "<module>", mod.assigns("PartialQuotedString")[-1]), f"{label}-quoted strings are one token",
                   f"quote() can emit {rx.show(only_ref)} which the quoted-string token does not accept as a whole", desc=f"{label}-quoted form accepted")
-    rets = [n for n in walk_in_order(q) if isinstance(n, ast.Return)]
-    forms = [norm(r.value) for r in rets]
-    ctx.check(any(f == "f'\"{val}\"'" for f in forms) and any(f == "f\"'{val}'\"" for f in forms), "R45.3", (LEX, "quote", q), "wraps in a matching quote pair",
-              f"quote() no longer wraps the value in one matching quote pair: {forms}", desc="quote wraps in matching pair")
-    # double quotes only when the value has none; single only when it has none
-    conds = [norm(s.test) for s in q.body if isinstance(s, ast.If)]
-    ctx.check("'\"' not in val" in conds and '"\'" not in val' in conds, "R45.3", (LEX, "quote", q), "quote character chosen is absent from the value", "a value is wrapped in a quote character it contains",
-              desc="chosen quote absent from value")
-    ifs = [s for s in u.body if isinstance(s, ast.If)]
-    oku = len(ifs) == 1 and norm(ifs[0].test) == "len(x) > 1 and x[0] in '\\'\"' and (x[0] == x[-1])" and norm(ifs[0].body[0]) == "return x[1:-1]" and norm(ifs[0].orelse[0]) == "return x"
-    ctx.check(oku, "R45.3", (LEX, "unquote", u), "strip one matching pair", "unquote must strip exactly one leading and trailing quote when they match, and leave everything else alone", desc="unquote strips one matching pair")
+    SAMPLES = ["", "a", "abc", "a b", " a", "a ", "a\tb", "a\nb", "a\r\nb", "it's", 'say "hi"', "back\\slash", "\\x22", "~q ! ~s", "caf\u00e9 \u4e2d", "a  b   c", "'", '"', "''", '""', "'a'", '"a"', "it's \"x\"", "\"'", "a'b\"c d"]
+    bad_form, bad_rt = [], []
+    for v in SAMPLES:
+        out = run("quote", v)
+        ctx.cells += 1
+        if not isinstance(out, str):
+            bad_form.append((v, out))
+            continue
+        bare_ok = out == v and v != "" and not (set(v) & set(excl))
+        quoted_ok = len(out) >= 2 and out[0] in "'\"" and out[-1] == out[0] and out[0] not in out[1:-1] and lang.accepts(out)
+        if not (bare_ok or quoted_ok):
+            bad_form.append((v, out))
+        back = run("unquote", out)
+        if back != v and not ("'" in v and '"' in v):  # both quote characters: the escape of R45.1 (known finding) applies
+            bad_rt.append((v, out, back))
+    ctx.check(not bad_form, "R45.3", (LEX, "quote", q), "quote() output is a bare word or one matching-quote token",
+              f"quote() emits something the lexer does not read as exactly one token: {bad_form[:3]}", desc="quote output is one token")
+    ctx.check(not bad_rt, "R45.3", (LEX, "unquote", u), "unquote(quote(v)) == v for values without both quote characters",
+              f"quote/unquote do not round-trip: {bad_rt[:3]}", desc="quote/unquote round-trip on representatives")
+    UNQ = [("plain", "plain"), ("'a b'", "a b"), ('"a b"', "a b"), ("'", "'"), ('"', '"'), ("'a\"", "'a\""), ("\"a'", "\"a'"), ("a'b'", "a'b'"), ("''", ""), ("'a'b'", "a'b")]
+    bad_u = [(x, run("unquote", x), w) for x, w in UNQ if run("unquote", x) != w]
+    ctx.cells += len(UNQ)
+    ctx.check(not bad_u, "R45.3", (LEX, "unquote", u), "unquote strips exactly one matching quote pair and nothing else", f"unquote misbehaves: {bad_u[:3]}", desc="unquote strips one matching pair")
+    ctx.bounds.append("R45.2/R45.3: quote()/unquote() interpreted on 132 candidate characters and 22+10 representative strings (both-quote-characters strings are the known finding of R45.1)")
 
     # ---- R45.4
     ex = ctx.func(CMD, "CommandManager.execute")
